@@ -274,6 +274,15 @@ def h : Handler := fun op j =>
   | "effect" => do
       pure (Json.arr ((perReactionEffectOnSubstance (← getSys j "sys") (← getStr j "key")).map
         fun p => Json.arr #[toJson p.1, toJson p.2]).toArray).compress
+  | "subset_answers" => do
+      let ans ← (← getArr j "answers").mapM fun v => match v with
+        | .bool b => pure b
+        | _ => .error "!bad-arg:answers"
+      let sys ← getSys j "sys"
+      if ans.length ≠ sys.rxns.length then .error "!bad-arg:answers-length" else
+      match subsetAnswers sys ans (← getChecks j) with
+      | .ok (y, n) => pure (Json.arr #[jSys y, jSys n]).compress
+      | .error c => pure (checkName c)
   | "subset" => do
       let p ← match j.getObjVal? "pred" with
         | .ok v => asPred v
